@@ -258,18 +258,22 @@ Section Skel.
       end
     else model_error "interp_schedule" st.
 
+  (* what happens once the scheduler, shown view v, has returned schedule s.  This definition does
+     not mention `sched`: the simulator's next state depends on the scheduler only through s. *)
+  Definition apply_schedule (st : state) (v : V) (s : Sch) : resS state :=
+    let st1 := log_call st v in
+    let blk := Simulator_schedule_block (iter st) None 0 in    (* store_schedule_history = False *)
+    match run_effects (interp_schedule s) (Simulator_schedule_block_effects blk) st1 with
+    | OkS st2 => OkS (set_flags st2 (Simulator_schedule_block__resolve blk)
+                                (Simulator_schedule_block__last_schedule_update blk))
+    | ErrS e st2 => ErrS e st2
+    end.
+
   Definition sched_phase (st : state) : resS state :=
     if Simulator_recompute_cond (iter st) (last_upd st) (resolve st) maxrec then
       match num_view (iter st) (occ st) (num st) with
       | Err e => ErrS e st                         (* Interface.active_sessions() raised *)
-      | Ok v =>
-          let st1 := log_call st v in
-          let blk := Simulator_schedule_block (iter st) None 0 in    (* store_schedule_history = False *)
-          match run_effects (interp_schedule (sched v)) (Simulator_schedule_block_effects blk) st1 with
-          | OkS st2 => OkS (set_flags st2 (Simulator_schedule_block__resolve blk)
-                                      (Simulator_schedule_block__last_schedule_update blk))
-          | ErrS e st2 => ErrS e st2
-          end
+      | Ok v => apply_schedule st v (sched v)
       end
     else OkS st.
 
